@@ -20,6 +20,7 @@ Definition rank (l : lockid) : nat := match l with LM => 1 | LC => 2 | LR => 3 e
 
 Inductive cmd :=
 | Acq (l : lockid) (w : bool)
+| TryAcq (l : lockid) (w : bool)                  (* `for !mu.TryLock() { ... }` has been left: the lock is held, nobody was waited for *)
 | Rel (l : lockid) (w : bool)
 | DeferRel (l : lockid) (w : bool)
 | Access (f : string) (l : lockid) (w : bool)     (* field, owning lock, write? *)
@@ -42,6 +43,7 @@ Inductive cmd :=
 (** linear paths *)
 Inductive atom :=
 | AAcq (l : lockid) (w : bool)
+| ATryAcq (l : lockid) (w : bool)          (* acquisition that never waits *)
 | ARel (l : lockid) (w : bool)
 | ADefer (l : lockid) (w : bool)
 | AAccess (f : string) (l : lockid) (w : bool)
@@ -90,6 +92,7 @@ Fixpoint paths (env : list (string * cmd)) (calls fuel : nat) (c : cmd) {struct 
   | S fuel' =>
       match c with
       | Acq l w => [([AAcq l w], 0%nat)]
+      | TryAcq l w => [([ATryAcq l w], 0%nat)]
       | Rel l w => [([ARel l w], 0%nat)]
       | DeferRel l w => [([ADefer l w], 0%nat)]
       | Access f l w => [([AAccess f l w], 0%nat)]
@@ -178,7 +181,7 @@ Fixpoint check_path (assume_capacity : bool) (h : held) (frames : list (list (lo
   | [] => finish_path h frames
   | a :: r =>
       match a with
-      | AAcq l w =>
+      | AAcq l w | ATryAcq l w =>
           v_and {| v_rank := negb (holds h l) && forallb (fun x => Nat.ltb (rank (fst x)) (rank l)) h;
                    v_lockset := true; v_block := true; v_handler := true; v_balanced := true; v_regular := true |}
                 (check_path assume_capacity ((l, w) :: h) frames r)
@@ -253,7 +256,7 @@ Definition atom_step (cap : bool) (s : cst) (a : atom) : option cst * sverdict :
   let bad_bal := {| sv := v_fail_balanced; sv_handler_first := true |} in
   let only := fun (v : verdict) => {| sv := v; sv_handler_first := true |} in
   match a with
-  | AAcq l w =>
+  | AAcq l w | ATryAcq l w =>
       (keep ((l, w) :: h) (cs_frames s) (cs_wrote_cache s) (cs_released_lm s),
        only {| v_rank := negb (holds h l) && forallb (fun x => Nat.ltb (rank (fst x)) (rank l)) h;
                v_lockset := true; v_block := true; v_handler := true; v_balanced := true; v_regular := true |})
@@ -312,6 +315,7 @@ Fixpoint run_cmd (cap : bool) (env : list (string * cmd)) (calls fuel : nat) (c 
       let atom1 := fun a => let '(n, v) := step_all cap a ss in oc_of n v in
       match c with
       | Acq l w => atom1 (AAcq l w)
+      | TryAcq l w => atom1 (ATryAcq l w)
       | Rel l w => atom1 (ARel l w)
       | DeferRel l w => atom1 (ADefer l w)
       | Access f l w => atom1 (AAccess f l w)
@@ -429,3 +433,12 @@ Definition handler_functions : list string :=
    "suite.updateHandler"; "suite.getLimiterPolicy"; "suite.setLimitOption"].
 Definition check_no_reentry (env : list (string * cmd)) : bool :=
   forallb (fun f => match aget f env with Some b => negb (mentions_manager 50 b) | None => false end) handler_functions.
+
+(** the only consumer of the request queue never waits for a lock (so a producer that waits for a queue slot while
+    holding locks waits for a thread that is not waiting for any of them) *)
+Definition waits_somewhere (p : list atom) : bool := existsb (fun a => match a with AAcq _ _ => true | _ => false end) p.
+Definition check_consumer_never_waits (env : list (string * cmd)) : bool :=
+  match aget "sender" env with
+  | Some b => forallb (fun p => negb (waits_somewhere (fst p))) (all_paths env b)
+  | None => false
+  end.
